@@ -586,6 +586,10 @@ class DefaultCodec(Codec):
 
         def get(self, key: str) -> object:
             if key not in self._index:
+                # (a handle that was given a merge parent after it was read back shows that
+                # parent's entries beneath its own, as it will when it is stored)
+                if self._merge_parent:
+                    return self._merge_parent.get(key)
                 raise ValueError(
                     "Key '{}' is not in key list for partition".format(key)
                 )
@@ -596,7 +600,9 @@ class DefaultCodec(Codec):
 
         def list_keys(self, _include_merge_parent: bool = True) -> Iterable[str]:
             if _include_merge_parent:
-                keys = self._index.keys()
+                keys = set(self._index.keys())
+                if self._merge_parent:
+                    keys.update(self._merge_parent.list_keys())
             else:
                 keys = [
                     key
